@@ -374,7 +374,8 @@ func (d *MarchingCanvas) AddFieldParallel2(field Field) {
 	chunkSections := d.chunkSectionsInRange(min, max)
 
 	workers := runtime.NumCPU()
-	numJobs := len(chunkSections)
+	// One job per block and float1 function
+	numJobs := len(chunkSections) * len(field.Float1Functions)
 	jobs := make(chan *job, numJobs)
 	results := make(chan *job, numJobs)
 
